@@ -153,6 +153,17 @@ func TestC15Race(t *testing.T) {
 					p.Feed(f.Bytes())
 					p.Feed(tagged(byte(i+1), k, "debug", true, nil, 0).Bytes())
 					p.Feed(tagged(byte(i+1), k, "raw", true, nil, 0).Bytes()) // unknown to the dialect: delivered and forwarded raw
+					{
+						// messages with text fields, the text changing from frame to frame and from channel to channel
+						st := ref.Frame{V2: k%3 != 0, Seq: byte(k), Sys: byte(60 + i), Comp: 1, ID: 253}
+						st.Payload = lay(253).Encode(&common.MessageStatustext{Severity: 6, Text: fmt.Sprintf("channel %d item %d", i, k)}, st.V2)
+						st.Checksum = st.ChecksumFor(lay(253).CRCExtra)
+						p.Feed(st.Bytes())
+						pv := ref.Frame{V2: true, Seq: byte(k), Sys: byte(60 + i), Comp: 1, ID: 22}
+						pv.Payload = lay(22).Encode(&common.MessageParamValue{ParamId: fmt.Sprintf("P%d_%d", i, k%97), ParamValue: float32(k), ParamCount: 100, ParamIndex: uint16(k % 100)}, true)
+						pv.Checksum = pv.ChecksumFor(lay(22).CRCExtra)
+						p.Feed(pv.Bytes())
+					}
 					if rejectedInput {
 						bad := tagged(byte(i+1), k, "debug", true, nil, 0)
 						bad.Checksum ^= 0x0101
@@ -181,6 +192,12 @@ func TestC15Race(t *testing.T) {
 				default:
 				}
 				if p.Send(tagged(byte(10+id), k, "debug", true, nil, 0).Bytes()) != nil {
+					return
+				}
+				st := ref.Frame{V2: true, Seq: byte(k), Sys: byte(80 + id), Comp: 1, ID: 253}
+				st.Payload = lay(253).Encode(&common.MessageStatustext{Severity: 4, Text: fmt.Sprintf("peer %d says %d", id, k)}, true)
+				st.Checksum = st.ChecksumFor(lay(253).CRCExtra)
+				if p.Send(st.Bytes()) != nil {
 					return
 				}
 				if k == 20 && id%2 == 1 {
